@@ -221,6 +221,10 @@ impl RtElem for u32 {
         id.wrapping_mul(0x9E37_79B9)
     }
 }
+impl RtElem for () {
+    const NAME: &'static str = "()";
+    fn of(_: u32) {}
+}
 impl RtElem for i64 {
     const NAME: &'static str = "i64";
     fn of(id: u32) -> i64 {
@@ -299,6 +303,55 @@ fn roundtrip_all<E: RtElem>(t: &TooDee<E>, fails: &mut Vec<Fail>) {
     check("to_string->Value->from_value", guarded(|| serde_json::from_value::<TooDee<E>>(v2)), fails);
 }
 
+/// C11 x serde: a destructor of an OLD element panics while `deserialize_in_place` replaces the contents of an array of
+/// resource-owning elements.  Whatever the call does, the destination must be left a valid array and nothing may be
+/// dropped twice, then or when it is dropped.
+fn in_place_drop_faults(nc: usize, nr: usize, fails: &mut Vec<Fail>) {
+    use crate::cells::Elem;
+    use crate::{fault, ledger};
+    use serde::Deserialize;
+    let n = nc * nr;
+    let text = serde_json::to_string(&TooDee::<u32>::from_vec(nc, nr, (1..=n as u32).collect())).unwrap();
+    for (pc, pr) in [(nc + 1, nr + 1), (2usize, 2usize), (1, 3)] {
+        for k in 0..=(pc * pr) as u32 {
+            ledger::reset();
+            let mut place: TooDee<Elem> = TooDee::from_vec(pc, pr, (0..(pc * pr) as u32).map(|i| Elem::new(500 + i)).collect());
+            fault::arm(fault::Site::Drop, k);
+            let r = guarded(|| {
+                let mut de = serde_json::Deserializer::from_str(&text);
+                <TooDee<Elem> as Deserialize>::deserialize_in_place(&mut de, &mut place)
+            });
+            let fired = fault::fired();
+            fault::disarm();
+            let (c, rr, len) = (place.num_cols(), place.num_rows(), place.data().len());
+            let shape_ok = c.checked_mul(rr) == Some(len) && ((c == 0) == (rr == 0));
+            let dead = place.data().iter().filter(|e| ledger::is_live(e.serial) != Some(true)).count();
+            let detail = json!({"doc_dims": [nc, nr], "prior": [pc, pr], "k": k, "fired": fired, "after": [c, rr, len], "dead_cells": dead,
+                                "panicked": r.is_err()});
+            if !shape_ok || dead > 0 {
+                fails.push(Fail::new(0, "fault.in_place", detail.clone()));
+            }
+            if !fired {
+                let good = matches!(r, Ok(Ok(()))) && (c, rr) == (nc, nr) && place.data().iter().map(|e| e.origin).eq(1..=n as u32);
+                if !good {
+                    fails.push(Fail::new(0, "rt.in_place_elem", detail.clone()));
+                }
+            }
+            if shape_ok {
+                let _ = guarded(move || drop(place));
+            } else {
+                std::mem::forget(place);
+            }
+            if !ledger::double_drops().is_empty() {
+                fails.push(Fail::new(0, "fault.in_place_double_drop", detail));
+            }
+            if !fails.is_empty() {
+                return;
+            }
+        }
+    }
+}
+
 fn run_roundtrip(case: &Value) -> Vec<Fail> {
     let doc = &case["doc"];
     let mut fails = Vec::new();
@@ -308,10 +361,14 @@ fn run_roundtrip(case: &Value) -> Vec<Fail> {
     let (nc, nr) = (get("num_cols"), get("num_rows"));
     let n = (nc * nr) as u32;
     if case["stratum"] == "roundtrip_owned" {
+        if n <= 9 {
+            in_place_drop_faults(nc, nr, &mut fails);
+        }
         roundtrip_all(&TooDee::from_vec(nc, nr, (1..=n).map(u32::of).collect()), &mut fails);
         if n > 20_000 {
             return fails; // very large arrays: the Copy element type only (the others would need hundreds of megabytes)
         }
+        roundtrip_all(&TooDee::from_vec(nc, nr, (1..=n).map(<()>::of).collect()), &mut fails);      // a zero-sized element type
         roundtrip_all(&TooDee::from_vec(nc, nr, (1..=n).map(i64::of).collect()), &mut fails);
         roundtrip_all(&TooDee::from_vec(nc, nr, (1..=n).map(String::of).collect()), &mut fails);
         roundtrip_all(&TooDee::from_vec(nc, nr, (1..=n).map(<Option<u8>>::of).collect()), &mut fails);
